@@ -48,6 +48,35 @@ func c10PDFPageTreeCycle(b []byte) bool {
 	}
 	edges := map[int][]int{}
 	present := map[int]bool{}
+	// a /Kids array that lies outside every object this scan recognises (damaged "N G obj" header, text before the first
+	// object): the lenient parser may still attribute it to an object it reaches through the xref table - possible way back
+	type span struct{ from, to int }
+	var spans []span
+	for i, l := range locs {
+		end := len(b)
+		if i+1 < len(locs) {
+			end = locs[i+1][0]
+		}
+		if j := bytes.Index(b[l[1]:end], []byte("endobj")); j >= 0 {
+			end = l[1] + j
+		}
+		spans = append(spans, span{l[1], end})
+	}
+	for _, m := range c10KidsRe.FindAllSubmatchIndex(b, -1) {
+		if len(c10RefRe.FindAll(b[m[2]:m[3]], 1)) == 0 {
+			continue
+		}
+		inside := false
+		for _, sp := range spans {
+			if m[0] >= sp.from && m[0] < sp.to {
+				inside = true
+				break
+			}
+		}
+		if !inside {
+			return true
+		}
+	}
 	for i, l := range locs {
 		n, _ := strconv.Atoi(string(b[l[2]:l[3]]))
 		present[n] = true
